@@ -173,10 +173,22 @@ pub fn analyze_pattern(
         }
     }
 
-    // Sort by name to ensure consistent ordering (must match generate_pattern_code)
+    // Sort by name to ensure consistent ordering (must match generate_pattern_code). A name that
+    // some binding set does not bind (`* = v` on a union whose variants have different fields)
+    // is nil-filled on that set's path (see generate_pattern_code), so its type includes nil.
+    let set_count = binding_sets.len();
     let mut all_bindings: Vec<(String, usize)> = bindings_map
         .into_iter()
-        .map(|(name, types)| (name, union_type_ids(program, types)))
+        .map(|(name, mut types)| {
+            let bound_by = binding_sets
+                .iter()
+                .filter(|bs| bs.bindings.iter().any(|b| b.name == name))
+                .count();
+            if bound_by < set_count {
+                types.push(program.register_type(Type::nil()));
+            }
+            (name, union_type_ids(program, types))
+        })
         .collect();
     all_bindings.sort_by(|a, b| a.0.cmp(&b.0));
 
@@ -243,6 +255,16 @@ pub fn generate_pattern_code(
     let mut end_jumps = Vec::new();
     let mut next_set_jumps = Vec::new();
 
+    // The locals of a pattern are registered once, for the union of the names its binding sets
+    // bind (analyze_pattern, sorted by name). Every set has to store exactly that many values in
+    // that order, or the slots of everything bound afterwards are off on that set's path.
+    let mut all_names: Vec<&str> = binding_sets
+        .iter()
+        .flat_map(|bs| bs.bindings.iter().map(|b| b.name.as_str()))
+        .collect();
+    all_names.sort_unstable();
+    all_names.dedup();
+
     for (i, binding_set) in binding_sets.iter().enumerate() {
         // Patch jumps from previous iteration that should skip to this binding set
         for jump in next_set_jumps.drain(..) {
@@ -305,10 +327,13 @@ pub fn generate_pattern_code(
         // If we get here, all checks passed - extract bindings
         // Sort by name to ensure consistent ordering across binding sets (important for unions
         // where different variants may have bindings in different field orders)
-        let mut sorted_bindings: Vec<_> = binding_set.bindings.iter().collect();
-        sorted_bindings.sort_by(|a, b| a.name.cmp(&b.name));
-        for binding in sorted_bindings {
-            generate_value_access(codegen, &binding.path);
+        for name in &all_names {
+            // (a name bound twice in one set is an equality requirement plus one binding)
+            match binding_set.bindings.iter().find(|b| b.name == *name) {
+                Some(binding) => generate_value_access(codegen, &binding.path),
+                // Not bound by this set (a field another variant has): nil, like the failure path.
+                None => codegen.add_instruction(Instruction::Tuple(quiver_core::types::NIL)),
+            }
             codegen.add_instruction(Instruction::Store);
         }
 
